@@ -28,7 +28,7 @@ disk); no `truncate`; the worker alive at the end (a dead worker stays dead, so
 it was alive all along).
 
 Helper lemmas: Proofs/ReadPathRef.lean (`RefinesNoCache`), ReadPathWorker.lean
-(worker steps), ReadPathStore.lean (`RInv`), ReadPath.lean (`ReadInv`).
+(worker steps), ReadPathStore.lean (`RdInv`), ReadPath.lean (`ReadInv`).
 -/
 import RaftLogModel.Proofs.ReadPath
 namespace RaftLog
